@@ -381,8 +381,9 @@ func (k Keeper) SetNetworkProperty(ctx sdk.Context, property types.NetworkProper
 	case types.EnableForeignFeePayments:
 		if value.Value > 0 {
 			properties.EnableForeignFeePayments = true
+		} else {
+			properties.EnableForeignFeePayments = false
 		}
-		properties.EnableForeignFeePayments = false
 	case types.MischanceRankDecreaseAmount:
 		properties.MischanceRankDecreaseAmount = value.Value
 	case types.MaxMischance:
